@@ -90,8 +90,8 @@ struct Claim {
     expect_last: bool,
 }
 
-fn leaf_data(n: usize, i: usize, trailing_empty: usize) -> Vec<u8> {
-    if i >= n - trailing_empty {
+fn leaf_data(n: usize, i: usize, trailing_empty: usize, holes: u64) -> Vec<u8> {
+    if i >= n - trailing_empty || (i < 64 && holes >> i & 1 == 1) {
         Vec::new()
     } else {
         format!("leaf-{n}-{i}").into_bytes()
@@ -219,19 +219,29 @@ pub fn run(tier: Tier) -> i32 {
     let accepted_true = AtomicUsize::new(0);
     let samples = Mutex::new(Samples::new(5));
     let classes: Mutex<std::collections::BTreeMap<&'static str, usize>> = Mutex::new(Default::default());
-    // (n, trailing explicit empty leaves)
-    let mut trees: Vec<(usize, usize)> = Vec::new();
+    // (n, trailing explicit empty leaves, mask of further explicit empty leaves anywhere)
+    let mut trees: Vec<(usize, usize, u64)> = Vec::new();
     for n in &sizes {
-        trees.push((*n, 0));
+        trees.push((*n, 0, 0));
         if *n >= 2 && *n <= 33 {
-            trees.push((*n, 1));
+            trees.push((*n, 1, 0));
         }
         if *n >= 4 && *n <= 17 {
-            trees.push((*n, n / 2));
+            trees.push((*n, n / 2, 0));
         }
     }
-    trees.par_iter().for_each(|(n, trailing)| {
-        let leaves: Vec<Vec<u8>> = (0..*n).map(|i| leaf_data(*n, i, *trailing)).collect();
+    // empty leaves in the middle of the tree: every pattern for small trees, aligned empty
+    // subtrees followed by data for larger ones
+    for n in 2..=tier.pick(6usize, 10) {
+        for holes in 1u64..(1 << n) {
+            trees.push((n, 0, holes));
+        }
+    }
+    for (n, from, to) in [(24usize, 10usize, 16usize), (24, 8, 16), (40, 16, 32), (12, 4, 8), (9, 1, 8), (33, 2, 32), (64, 32, 63)] {
+        trees.push((n, 0, ((1u64 << to) - 1) & !((1u64 << from) - 1)));
+    }
+    trees.par_iter().for_each(|(n, trailing, holes)| {
+        let leaves: Vec<Vec<u8>> = (0..*n).map(|i| leaf_data(*n, i, *trailing, *holes)).collect();
         let rt = RefTree::new(&leaves);
         let tree = PlainMerkleTree::new(&leaves);
         if tree.get_root() != rt.root() {
@@ -277,7 +287,7 @@ pub fn run(tier: Tier) -> i32 {
                     )
                 });
                 let replay = json!({
-                    "leaves": n, "trailing_empty_leaves": trailing, "genuine_index": i,
+                    "leaves": n, "trailing_empty_leaves": trailing, "empty_leaf_mask": holes, "genuine_index": i,
                     "claimed_index": c.index, "class": c.class, "proof_len": c.proof.len(),
                     "tree_height": rt.height(),
                 });
